@@ -25,6 +25,8 @@ real_monotonic = _time_mod.monotonic
 real_perf_counter = _time_mod.perf_counter
 real_time = _time_mod.time
 
+PARK_FINISHED_THREADS = True
+thread_exit_hook = None  # set by threads.install(): releases thread-local storage while the ending thread still holds the baton
 _SIM = None  # the active Sim (at most one per OS process)
 _BY_IDENT = {}  # real thread ident -> SimThread
 
@@ -498,14 +500,25 @@ class Sim:
         if th is not None:
             t.pythread = th
 
+        # The callable and its arguments are handed over through a holder that is emptied before the thread body runs, and
+        # every local reference is dropped BEFORE the baton is passed on at thread end: otherwise the dying OS thread would
+        # release those objects (running finalizers that use simulated primitives) concurrently with the next baton holder.
+        holder = [func, args, kwargs]
+        func = args = kwargs = None
+
         def body():
             t.gate.acquire()
             t.ident = _real_get_ident()
             _BY_IDENT[t.ident] = t
+            f, a, k = holder
+            del holder[:]
             try:
                 if self.aborting or t.state == 'dead':
                     return
-                func(*args, **kwargs)
+                try:
+                    f(*a, **k)
+                finally:
+                    f = a = k = None
             except SimAbort:
                 return
             except BaseException as e:  # noqa
@@ -514,7 +527,18 @@ class Sim:
                 if t.idx == 0:
                     self.finish(('root-exc', type(e).__name__, traceback.format_exc()))
                     return
+                e = None
+            if thread_exit_hook is not None and not self.aborting:
+                try:
+                    thread_exit_hook()
+                except SimAbort:
+                    return
             self._thread_end(t)
+            if PARK_FINISHED_THREADS:
+                # Never let the OS thread run its interpreter-level teardown while the simulation goes on: whatever CPython
+                # releases there (thread state, leftovers of thread-local storage) would happen concurrently with the next
+                # baton holder. The simulated thread is 'done'; its OS thread just sleeps until the process exits.
+                t.gate.acquire()
 
         _real_start_new_thread(body, ())
         return t
